@@ -158,11 +158,11 @@ def make_traces(prop, tier, seed, workdir, drive):
     traces.append(s3)
     # S4: exhaustive search of the implementation to a small depth around prepared states
     from concurrent.futures import ThreadPoolExecutor
-    names = ["fresh", "inflight", "answered", "paused", "between", "lastbatch", "oneshot", "module", "params", "binding"]
+    names = ["fresh", "inflight", "answered", "paused", "between", "lastbatch", "oneshot", "module", "reactive", "params", "binding"]
     if tier == "quick":
         names = [n for n in names if n not in ("fresh", "lastbatch")]
     deeper = [] if tier == "quick" else ["-steps", "5"]      # thorough: one level deeper (binding: as configured)
-    with ThreadPoolExecutor(max_workers=10) as ex:
+    with ThreadPoolExecutor(max_workers=11) as ex:
         res = list(ex.map(lambda n: drive(["explore", "-in", n, "-n", "400000", "-out", os.path.join(workdir, "s4%s.ndjson" % n)]
                                           + ([] if n == "binding" else deeper)), names))
     stats["exhaustive_search"] = res
@@ -249,6 +249,13 @@ FAMILY = {
         "thorough": dict(Deposits="{0}", QosSet="{1}", Caps="{3}", Timeouts="{2, 3}", Freqs="{0, 3}", Totals="{2, 3}",
                          Dts="{1}", Thresholds="{1}", Kinds='{"valid", "bad"}', MaxHeight=7, MaxCtx=1, MaxBatch=3),
     },
+    "react": {
+        "module": "MC_react", "extra": "  Reactions <- C_Reactions\n",
+        "quick": dict(Deposits="{0}", QosSet="{1}", Caps="{3}", Timeouts="{1, 2}", Freqs="{0}", Totals="{2}",
+                      Dts="{1}", Thresholds="{1, 2}", Kinds='{"valid", "none"}', MaxHeight=4, MaxCtx=1, MaxBatch=2),
+        "thorough": dict(Deposits="{0}", QosSet="{1}", Caps="{3}", Timeouts="{1, 2}", Freqs="{0, 3}", Totals="{2, 3}",
+                         Dts="{1}", Thresholds="{1, 2}", Kinds='{"valid", "bad", "none"}', MaxHeight=7, MaxCtx=1, MaxBatch=3),
+    },
     "restart": {
         "module": "MC_restart", "extra": "  WithRestart <- C_WithRestart\n",
         "quick": dict(Deposits="{0}", QosSet="{1}", Caps="{3}", Timeouts="{1, 2}", Freqs="{0}", Totals="{1, 2}",
@@ -268,8 +275,8 @@ FAMILY = {
 PROP_FAMILIES = {
     "C01": ["money", "restart"], "C02": ["money", "lifecycle", "params"], "C03": ["binding", "money"], "C04": ["money", "lifecycle", "params"],
     "C05": ["binding", "lifecycle"], "C06": ["money"], "C07": ["money"], "C08": ["lifecycle", "params"],
-    "C09": ["lifecycle", "restart"], "C10": ["lifecycle", "params", "restart"], "C11": ["lifecycle", "params", "restart"], "C12": ["lifecycle"],
-    "C13": ["money"], "C14": ["binding", "money", "params"], "C15": ["binding"], "C16": ["lifecycle", "params", "restart"],
+    "C09": ["lifecycle", "restart", "react"], "C10": ["lifecycle", "params", "restart"], "C11": ["lifecycle", "params", "restart", "react"], "C12": ["lifecycle", "react"],
+    "C13": ["money"], "C14": ["binding", "money", "params"], "C15": ["binding"], "C16": ["lifecycle", "params", "restart", "react"],
     "C19": ["money"],
 }
 
